@@ -56,7 +56,7 @@ PROPS = {
         "assumptions": ["RefCell's dynamic borrow state is not modelled by Verus (a double borrow_mut would panic); Kani executes the real RefCell"],
     },
     "C07": {
-        "verus": ["pair_pop", "values_num", "interp_tail", "repl_complete", "macro_transform", "lexer_pos", "base_cmp"],
+        "verus": ["pair_pop", "values_num", "interp_tail", "repl_complete", "macro_transform", "lexer_pos", "base_cmp", "base_folds"],
         "kani": ["values"], "native": ["panic_probe"],
         "level": "proof",
         "explanation": "Panic-freedom (no overflow, no failing unwrap/expect, no reachable todo!/unreachable!/panic!, no out-of-bounds index) "
@@ -128,25 +128,29 @@ PROPS = {
                         "rule X4: check_bracket_closed is instantiated at str::Chars, the type of its only call site (checked each run)"],
     },
     "C09": {
-        "verus": ["values_num"], "kani": ["values"], "native": [],
+        "verus": ["values_num", "base_folds"], "kani": ["values"], "native": [],
         "level": "proof",
         "explanation": "Every arithmetic operation of Number is proved against rational-arithmetic postconditions for ALL i32 "
                        "operands (Verus, mathematical integers) and for an abstract inexact type R (contagion by congruence); "
-                       "the facts assumed about R are checked at R = f32 by loop-free full-domain Kani harnesses.",
-        "unverified": ["n-ary folds of the builtins + - * / (base.rs): iterator adapters over Value",
+                       "the facts assumed about R are checked at R = f32 by loop-free full-domain Kani harnesses. The builtins + - * / of base.rs "
+                       "are proved to be the left fold of those binary operations (zero/one-argument conventions, arguments examined left "
+                       "to right, the first type error or division by zero ends the fold).",
+        "unverified": ["rule X4': the builtins + - * / are verified at Vec<Value<R>>; production passes a SmallVec (same sequence of items)",
                        "sqrt/exp/ln/... and `exact` (not part of the statement)"],
         "assumptions": ["R's operators are total functions of their operands (trait-level assumption real_ops_are_total_functions; true of f32)",
                         "Rust's f32 + - * / abs floor ceil are the IEEE-754 binary32 operations"],
     },
     "C10": {
-        "verus": ["values_num", "base_cmp"], "kani": ["values"], "native": [],
+        "verus": ["values_num", "base_cmp", "base_folds"], "kani": ["values"], "native": [],
         "level": "proof",
         "explanation": "PartialEq::eq / PartialOrd::partial_cmp / exact_eqv of Number are proved to be the order of the rationals "
                        "on every pair of representations with positive denominators (all i32), and the comparison of the "
                        "converted operands when one is inexact -- for ALL operands, so Number obeys its eq/partial_cmp specs and the derived "
                        "operators == < > <= >= are proved to follow (witness_operators). The five macro-generated chains = < > <= >= of "
-                       "base.rs are proved to examine their arguments left to right and to return the conjunction of the adjacent pairs.",
-        "unverified": ["max / min (first_of_order!: try_fold with a closure) and the eqv? builtin's dispatch over Values",
+                       "base.rs are proved to examine their arguments left to right and to return the conjunction of the adjacent pairs; "
+                       "max / min are proved to be the left fold of a binary step that is proved (lemma_maxmin_step) to return the "
+                       "numerically extreme operand, exact iff both operands are exact.",
+        "unverified": ["the eqv? builtin's dispatch over Values (its numeric arm calls the proved exact_eqv)",
                        "rule X4': the chains are verified at Vec<Value<R>>; production passes a SmallVec (same sequence of items)"],
         "assumptions": ["R's == and partial_cmp are functions of their operands (obeys_eq_spec / obeys_partial_cmp_spec)"],
     },
